@@ -2,6 +2,9 @@
 # usage: scripts/try_mutant.sh <seeded-dir> <CHECK-ID> [more check ids...]
 # Applies seeded/<dir>/patch.diff to /repo, runs the quick checks, restores /repo.
 set -u
+# a build directory of its own: the binaries of the unchanged tree stay as they are
+export VERIF_TARGET_DIR=/verif/harness/target-mutant
+export VERIF_EVIDENCE_DIR=/verif/harness/target-mutant/evidence
 D=/verif/seeded/$1; shift
 cd /repo || exit 2
 if ! git diff --quiet; then echo "repo working tree is dirty"; exit 2; fi
@@ -11,8 +14,4 @@ for id in "$@"; do
   (cd /verif && bin/check $id --tier quick 2>&1 | grep -E "VIOLATION|signature:|what:|HELD|INCONCLUSIVE|HARNESS" | cut -c1-400 | head -14; )
 done
 git -C /repo checkout -- .
-# evidence files were rewritten by the mutant run: restore the committed ones
-(cd /verif && git checkout -- evidence 2>/dev/null)
-# rebuild the harness from the restored tree so later --no-build runs do not use mutant binaries
-(cd /verif/harness && cargo build --workspace --offline --quiet 2>/dev/null)
 echo "=== repo restored: $(git -C /repo status --short | wc -l) dirty files"
